@@ -5,6 +5,7 @@ import (
 	"strconv"
 	"strings"
 
+	"github.com/ozontech/seq-db/conf"
 	"github.com/ozontech/seq-db/parser"
 	"github.com/ozontech/seq-db/seq"
 
@@ -360,6 +361,11 @@ func renderTree(t *T, r *vh.RNG, lvl int) []tok {
 // Lm (modifier letter h), Nd outside ASCII (arabic-indic three).  None of them has a case mapping.
 var decos = []string{"²", "½", "①", "〇", "ʰ", "٣"}
 
+// casedDecos are upper / title case letters outside ASCII: Latin-1, Cyrillic, Greek, a title-case digraph, and two whose
+// lower case has another byte length (U+0130 -> i, U+212A Kelvin -> k).  The index side stores unicode.ToLower of them
+// unless case sensitivity is configured; both parsers have to ask for the same.
+var casedDecos = []string{"Ü", "É", "Ж", "Σ", "ǅ", "İ", "K"}
+
 // E is a written expression: boolean structure over field filters; a filter is a single value, an in-list
 // (disjunction of values) or a quoted multi-word text (conjunction of words).
 type E struct {
@@ -385,6 +391,12 @@ func (e *E) tree() *T {
 			t = bin(op, t, leaf(a))
 		}
 		return t
+	case 'x':
+		t := leaf(e.atoms[0])
+		for _, a := range e.atoms[1:] {
+			t = bin('|', t, leaf(a))
+		}
+		return t
 	case 'j':
 		var t *T
 		for _, it := range e.items {
@@ -407,7 +419,13 @@ func (e *E) tree() *T {
 
 func randE(r *vh.RNG, size, k int) *E {
 	if size <= 1 {
-		switch r.Intn(7) {
+		switch r.Intn(8) {
+		case 7:
+			e := &E{op: 'x'}
+			for n := 1 + r.Intn(3); n > 0; n-- {
+				e.atoms = append(e.atoms, r.Intn(k))
+			}
+			return e
 		case 2:
 			e := &E{op: 'j'}
 			for n := 1 + r.Intn(3); n > 0; n-- {
@@ -430,6 +448,8 @@ func randE(r *vh.RNG, size, k int) *E {
 			e := &E{op: 't', sep: []string{" ", " ", "  ", "-", ": ", "\xff", "\xc3", " \xe2\x82 ", "\xff\xfe", ", "}[r.Intn(10)]}
 			if r.Chance(1, 3) {
 				e.deco = decos[r.Intn(len(decos))]
+			} else if r.Chance(1, 3) {
+				e.deco = casedDecos[r.Intn(len(casedDecos))]
 			}
 			for i := 0; i < n; i++ {
 				e.atoms = append(e.atoms, r.Intn(k))
@@ -438,6 +458,9 @@ func randE(r *vh.RNG, size, k int) *E {
 		}
 		if r.Chance(1, 6) {
 			return &E{op: 'a', atoms: []int{r.Intn(k)}, deco: decos[r.Intn(len(decos))]}
+		}
+		if r.Chance(1, 6) {
+			return &E{op: 'a', atoms: []int{r.Intn(k)}, deco: casedDecos[r.Intn(len(casedDecos))]}
 		}
 		return &E{op: 'a', atoms: []int{r.Intn(k)}}
 	}
@@ -565,6 +588,21 @@ func (e *E) render(st style, r *vh.RNG, lvl int) string {
 		} else {
 			s = "fk:" + kw("in", st, r) + "(" + strings.Join(vals, ","+sp(st, r)) + ")"
 		}
+	case 'x':
+		// existence of the fields V<a> (upper-case names): `_exists_` is always case sensitive
+		names := make([]string, len(e.atoms))
+		for i, a := range e.atoms {
+			names[i] = fmt.Sprintf("V%d", a)
+		}
+		if st.legacy || e.sep == "or" {
+			parts := make([]string, len(names))
+			for i, n := range names {
+				parts[i] = "_exists_:" + n
+			}
+			s = "(" + strings.Join(parts, sp(st, r)+kw("or", st, r)+sp(st, r)) + ")"
+		} else {
+			s = "_exists_:" + kw("in", st, r) + "(" + strings.Join(names, ","+sp(st, r)) + ")"
+		}
 	case 'j':
 		parts := make([]string, len(e.items))
 		for i, it := range e.items {
@@ -602,7 +640,7 @@ func (e *E) render(st style, r *vh.RNG, lvl int) string {
 		s = e.l.render(st, r, 1) + sp(st, r) + kw("and", st, r) + sp(st, r) + e.r.render(st, r, 2)
 		need = lvl > 1
 	}
-	extra := st.redundant == 8 && e.op != 'a' && e.op != 'i' && e.op != 't' && e.op != 'j'
+	extra := st.redundant == 8 && e.op != 'a' && e.op != 'i' && e.op != 't' && e.op != 'j' && e.op != 'x'
 	if !extra && st.redundant > 0 && st.redundant < 8 && r != nil {
 		extra = r.Chance(st.redundant, 8)
 	}
@@ -612,10 +650,16 @@ func (e *E) render(st style, r *vh.RNG, lvl int) string {
 	return s
 }
 
-func (c *ctx) caseTruth(which string, k int, want string, q string, _ string, tag string) {
-	replay := fmt.Sprintf("truth %s %d %s %s -", which, k, want, hexs(q))
+func (c *ctx) caseTruth(which string, k int, want string, q string, flags string, tag string) {
+	if flags == "" {
+		flags = "-"
+	}
+	cs := flags == "cs" // conf.CaseSensitive for this case (the index side lower-cases with unicode.ToLower unless set)
+	replay := fmt.Sprintf("truth %s %d %s %s %s", which, k, want, hexs(q), flags)
 	beginCase(replay)
 	defer endCase()
+	conf.CaseSensitive = cs
+	defer func() { conf.CaseSensitive = false }()
 	o, root, _ := runParser(which, q, fullMapping())
 	nt := strings.Count(q, ":") > 2
 	c.orTruth.Case(which+" "+q, nt, "parser="+which, "style="+tag, "result="+o.kind)
@@ -645,7 +689,7 @@ func (c *ctx) caseTruth(which string, k int, want string, q string, _ string, ta
 	// the same through the real processor.IndexSearch (its own leaf construction) on a fake fraction index, both orders
 	for _, order := range []seq.DocsOrder{seq.DocsOrderDesc, seq.DocsOrderAsc} {
 		var got2 string
-		p, site, msg = guarded(func() { got2, err = searchTable(root, k, order) })
+		p, site, msg = guarded(func() { got2, err = searchTable(root, k, cs, order) })
 		if p {
 			c.violate(site, "parser-panics", "IndexSearch panicked: "+msg, replay)
 			return
@@ -655,6 +699,12 @@ func (c *ctx) caseTruth(which string, k int, want string, q string, _ string, ta
 			return
 		}
 		if got2 != want {
+			// a leaf that asks for a token the index side never stores for these words (wrong case rule, lost bytes ...) is
+			// the parser's doing, not the search's
+			if miss := foreignLeaf(root, k, cs); miss != "" {
+				c.violate("parser:"+which, "meaning-changed", fmt.Sprintf("%q (case-sensitive=%v) asks for the token %s, which the indexer never stores for the written words: searching returns documents %s, the written expression denotes %s", q, cs, miss, got2, want), replay)
+				return
+			}
 			c.violate("frac/processor/search.go:IndexSearch", "meaning-changed", fmt.Sprintf("searching with %q (order %v) returns documents %s, the written expression denotes %s", q, order, got2, want), replay)
 			return
 		}
@@ -706,6 +756,33 @@ func (c *ctx) runTruth(r *vh.RNG) {
 			}
 		}
 	}
+	// directed: non-ASCII cased letters inside words (atom, phrase, negation; text and keyword field), both parsers, case
+	// sensitivity off and on: the fake index stores what the tokenizers would (unicode.ToLower unless case sensitive)
+	for _, d := range casedDecos {
+		for _, e := range []*E{{op: 'a', atoms: []int{0}, deco: d}, {op: 't', atoms: []int{0, 1}, deco: d}, {op: '!', l: &E{op: 'a', atoms: []int{1}, deco: d}},
+			{op: '&', l: &E{op: 'a', atoms: []int{0}, deco: d}, r: &E{op: '!', l: &E{op: 't', atoms: []int{1, 2}, deco: d}}}} {
+			want := e.tree().table(3)
+			for _, which := range []string{"seqql", "legacy"} {
+				for _, flags := range []string{"", "cs"} {
+					c.caseTruth(which, 3, want, e.render(style{legacy: which == "legacy"}, nil, 0), flags, "cased-letters")
+				}
+			}
+		}
+	}
+	// directed: `_exists_:in(V0, V1)` is the disjunction `_exists_:V0 or _exists_:V1` (names with an upper-case letter; the
+	// builtin field is case sensitive whatever the configuration), also negated and inside a conjunction
+	for _, atoms := range [][]int{{0}, {0, 1}, {2, 0, 1}} {
+		for _, form := range []string{"in", "or"} {
+			x := &E{op: 'x', atoms: atoms, sep: form}
+			for _, e := range []*E{x, {op: '!', l: x}, {op: '&', l: x, r: &E{op: 'a', atoms: []int{2}}}} {
+				want := e.tree().table(3)
+				for _, flags := range []string{"", "cs"} {
+					c.caseTruth("seqql", 3, want, e.render(style{}, nil, 0), flags, "exists-in")
+					c.caseTruth("legacy", 3, want, e.render(style{legacy: true}, nil, 0), flags, "exists-in")
+				}
+			}
+		}
+	}
 	// directed: in-lists on a text field whose items are several words (each item is a conjunction, the list a disjunction)
 	for _, items := range [][][]int{{{0, 1}}, {{0, 1}, {2}}, {{0}, {1, 2}}, {{0, 1}, {1, 2}}, {{0, 1, 2}, {0}}} {
 		e := &E{op: 'j', items: items}
@@ -729,7 +806,11 @@ func (c *ctx) runTruth(r *vh.RNG) {
 		if !legacy && r.Chance(1, 4) {
 			q += []string{" | fields fk", "| fields except x", " |fields a, b.c", "\n| fields 'q f'"}[r.Intn(4)]
 		}
-		c.caseTruth(which, k, want, q, "", "random")
+		flags := ""
+		if r.Chance(1, 3) {
+			flags = "cs"
+		}
+		c.caseTruth(which, k, want, q, flags, "random")
 	}
 }
 
